@@ -1,6 +1,6 @@
 CONSTANTS
  Keys = {"k1","k2"}
- Sizes = {1,2,4}
+ Sizes = {1,2,5}
  Capacity = 4
  MaxOps = 6
  FixCopyOnSet = TRUE
